@@ -118,6 +118,19 @@ func models() []rpac.ValidationInfo {
 			out = append(out, v)
 		}
 	}
+	// user flag values without the extra-SIDs bit (0x20) on a structure that does encode extra SIDs and resource
+	// groups: what is encoded (and signed) is what is reported, whatever the informational flag word says
+	for _, fl := range []uint32{0, 0x1, 0x200, 0xffffffdf} {
+		v := base
+		v.EffectiveName, v.FullName = rpac.Str{Value: "flaguser"}, rpac.Str{Value: "Flag User"}
+		v.UserFlags = fl
+		v.Groups = []rpac.Group{{RID: 2000, Attributes: 7}}
+		v.ExtraSIDs = []rpac.ExtraSID{{SID: sidOf(3000), Attributes: 7}, {SID: sidOf(3001), Attributes: 7}}
+		d := dom
+		v.ResourceGroupDomainSID = &d
+		v.ResourceGroups = []rpac.Group{{RID: 4000, Attributes: 7}}
+		out = append(out, v)
+	}
 	out = append(out, rpac.SampleGOKRB5(), rpac.SampleTrust())
 	return out
 }
@@ -146,6 +159,7 @@ func build(v rpac.ValidationInfo, sigType int32, srvKey []byte, rodc *uint16, or
 		rpac.TypeServerSig:  rpac.SigBuffer(sigType, rodc),
 		rpac.TypeKDCSig:     rpac.SigBuffer(16, rodc),
 		rpac.TypeUPNDNS:     upnDNS("user@test.gokrb5", "TEST.GOKRB5"),
+		typeClientClaims:    clientClaims,
 	}
 	var bufs []rpac.Buffer
 	b := built{sigType: sigType, srvKey: srvKey, model: v, srvIdx: -1, kdcIdx: -1}
@@ -194,6 +208,12 @@ func utf16le(s string) []byte {
 	}
 	return out
 }
+
+// typeClientClaims: a client claims buffer (type 13); its content is a well-formed CLAIMS_SET_METADATA taken as an
+// input (one string claim), only so that buffers the library decodes stand before and between the four standard ones.
+const typeClientClaims = 13
+
+var clientClaims, _ = hex.DecodeString("01100800cccccccc000100000000000000000200d80000000400020000000000d8000000000000000000000000000000d800000001100800ccccccccc80000000000000000000200010000000400020000000000000000000000000001000000010000000100000008000200010000000c000200030003000100000010000200290000000000000029000000610064003a002f002f006500780074002f00730041004d004100630063006f0075006e0074004e0061006d0065003a0038003800640035006400390030003800350065006100350063003000630030000000000001000000140002000a000000000000000a00000074006500730074007500730065007200310000000000000000000000")
 
 var stdOrder = []uint32{rpac.TypeLogonInfo, rpac.TypeClientInfo, rpac.TypeServerSig, rpac.TypeKDCSig}
 
@@ -350,21 +370,24 @@ func Run(c *engine.Ctx) {
 		et := etypeOf(st)
 		key := keyOf(et, c.Seed)
 		five := append(append([]uint32{}, stdOrder...), rpac.TypeUPNDNS)
-		permute(five, func(order []uint32) {
-			evals++
-			b := build(v, st, key, nil, order, c.Seed)
-			r := process(b.pac, et, key)
-			rec := map[string]interface{}{"order": fmt.Sprint(order), "sig_type": st}
-			if r.panic != "" || r.err != nil {
-				c.Violate("order", "rejects-permuted-buffer-order", map[string]interface{}{"panic": r.panic, "err": fmt.Sprint(r.err)}, rec)
-				return
-			}
-			if d := attrDiff(r.p.KerbValidationInfo, v); d != "" {
-				c.Violate("order", "attributes-differ-under-permuted-order", map[string]interface{}{"diff": d}, rec)
-				return
-			}
-			c.Distinct("order/" + fmt.Sprint(order))
-		})
+		withClaims := append(append([]uint32{}, stdOrder...), typeClientClaims)
+		for _, set := range [][]uint32{five, withClaims} {
+			permute(set, func(order []uint32) {
+				evals++
+				b := build(v, st, key, nil, order, c.Seed)
+				r := process(b.pac, et, key)
+				rec := map[string]interface{}{"order": fmt.Sprint(order), "sig_type": st}
+				if r.panic != "" || r.err != nil {
+					c.Violate("order", "rejects-permuted-buffer-order", map[string]interface{}{"panic": r.panic, "err": fmt.Sprint(r.err)}, rec)
+					return
+				}
+				if d := attrDiff(r.p.KerbValidationInfo, v); d != "" {
+					c.Violate("order", "attributes-differ-under-permuted-order", map[string]interface{}{"diff": d}, rec)
+					return
+				}
+				c.Distinct("order/" + fmt.Sprint(order))
+			})
+		}
 		for drop := range stdOrder {
 			var order []uint32
 			for i, t := range stdOrder {
